@@ -330,10 +330,15 @@ func TestVerifC05(t *testing.T) {
 		w.Replay(vc05StorageLevel, s)
 	}
 	for _, s := range scns {
-		n, cut := w.Explore(vc05StorageLevel, s, maxRuns)
+		// quick tier: scenarios of three and more requests get a smaller budget (the large ones are enumerated in the thorough tier)
+		budget := maxRuns
+		if !thorough && len(s.Threads) >= 3 && budget > 700 {
+			budget = 700
+		}
+		n, cut := w.Explore(vc05StorageLevel, s, budget)
 		if cut {
-			// too many schedules to enumerate: add as many uniformly random walks through the schedule tree
-			w.Sample(vc05StorageLevel, s, maxRuns, rng.Intn)
+			// too many schedules to enumerate: add random walks through the schedule tree
+			w.Sample(vc05StorageLevel, s, budget/2, rng.Intn)
 		}
 		w.Count(s, n, cut)
 	}
@@ -358,5 +363,5 @@ func TestVerifC05(t *testing.T) {
 			}
 		}
 	}
-	t.Logf("C05 storage harness: %d runs, %d goroutine dumps", w.Runs, w.Dumps)
+	t.Logf("C05 storage harness: %d runs, %d goroutine dumps, %d diverged re-executions repeated", w.Runs, w.Dumps, VerifC05Diverged)
 }
